@@ -951,6 +951,7 @@ func (fc *FnCtx) verify() {
 			a.Path = append([]int{}, fc.conformOuterPath...)
 			a.T = p.Type().Underlying().(*types.Pointer).Elem()
 			v = Val{K: KAddr, T: p.Type(), A: &a}
+			fc.assumeStructInv(st, outerVal) // the implementing object carries its structure invariants
 		}
 		fr.vals[p] = v
 		args = append(args, v)
